@@ -637,6 +637,40 @@ def stride_folds(res, tier, okx):
     return {"cases": len(cases), "folded": len(folded), "kinds": {" / ".join(k): v for k, v in sorted(stats.items())}}
 
 
+def prelu_kinds(res, tier, okx):
+    """correspondence of model/Rewrites.v prelu_kind with convert_prelu on the PRELU networks of tools/netgen.py (slopes all
+    below 1, all at or above 1, straddling 1, uniform, negative; int8 / uint8 / int16)"""
+    import tempfile
+    n = 150 if tier == "quick" else 3000
+    cases = [[vlib.seed() * 100000 + i] for i in range(n)]
+    tmp = tempfile.mkdtemp(prefix="c01prelu_", dir=vlib.BUILD)
+    cj, oj = os.path.join(tmp, "cases.json"), os.path.join(tmp, "out.json")
+    json.dump(cases, open(cj, "w"))
+    p = subprocess.run([vlib.PY, os.path.join(vlib.ROOT, "tools", "rewrite_worker.py"), cj, oj, "prelu"], env=vlib.py_env({"VERIF_TMP": tmp}),
+                       capture_output=True, text=True, timeout=3000)
+    if p.returncode != 0 or not os.path.exists(oj):
+        res.violation({"machinery": "rewrite worker (prelu)"}, {"stderr": p.stderr[-1500:]},
+                      "C01: convert_prelu could not be run on generated PRELU operators", no_input=True)
+        return {"cases": 0}
+    impl = json.load(open(oj))
+    shutil.rmtree(tmp, ignore_errors=True)
+    rows = [(c, o) for c, o in zip(cases, impl) if o["kind"] >= 0]
+    model = models.run("prelu_kind", [[o["zp"], o["sn"], o["sd"]] + o["codes"] for c, o in rows]) if okx and rows else []
+    bad = 0
+    dec = collections.Counter()
+    for (c, o), m in zip(rows, model):
+        dec[["RELU", "LEAKY_RELU", "MAXIMUM", "RELU + MINIMUM"][m[0]]] += 1
+        if o["kind"] != m[0] and bad < 5:
+            bad += 1
+            res.violation({"kind": "prelu_kind", "case": c},
+                          {"netgen seed": "rw%d" % c[0], "slope codes": o["codes"][:32], "zero point": o["zp"], "scale": "%d / %d" % (o["sn"], o["sd"]),
+                           "implementation (0 RELU, 1 LEAKY_RELU, 2 MAXIMUM, 3 RELU + MINIMUM)": o["kind"], "model": m[0]},
+                          "C01: convert_prelu turns a PRELU with slopes between %.4g and %.4g into variant %d where the proved decision is %d "
+                          "(props/C01.v prelu_as_maximum needs every slope <= 1)" % (
+                              (min(o["codes"]) - o["zp"]) * o["sn"] / o["sd"], (max(o["codes"]) - o["zp"]) * o["sn"] / o["sd"], o["kind"], m[0]))
+    return {"cases": len(rows), "decisions": dict(dec)}
+
+
 def run(tier):
     res = vlib.Result("C01", tier, "other")
     b = vlib.build_property("C01")
@@ -648,6 +682,7 @@ def run(tier):
     rw_cov["avgpool_kernels"] = avgpool_kernels(res, tier, okm and b["ok"])
     rw_cov["conv_group_slices"] = conv_group_slices(res, tier, okm and b["ok"])
     rw_cov["stride_folds"] = stride_folds(res, tier, okm and b["ok"])
+    rw_cov["prelu_kinds"] = prelu_kinds(res, tier, okm and b["ok"])
     n = 470 if tier == "quick" else 3400
     max_macs = 1200000 if tier == "quick" else 30000000
     rng = random.Random("c01/%d" % vlib.seed())
